@@ -92,9 +92,18 @@ func VerifH20b() {
 	w.conn = vNewConn(nil)
 	w.ses, w.rd, w.wr = vSession(srv, w.conn)
 	w.ctx = vCtx(srv)
-	pbody := vCat(vCStr(nil), vCStr(q), vU16(0))
+	// the Parse message may pre-specify any number of parameter types; whatever
+	// it says, Describe announces what the ParseFn declared
+	np := vChoose(4)
+	pbody := vCat(vCStr(nil), vCStr(q), vU16(np))
+	for k := 0; k < np; k++ {
+		pbody = append(pbody, vU32(nondetU32())...)
+	}
 	vAssert("parse-ok", w.ses.handleParse(w.ctx, &buffer.Reader{Msg: pbody, MaxMessageSize: 64}, w.wr) == nil)
 	vAssume(n <= 9)
+	if np > 0 && np != n {
+		vReach("prespecified-type-count-differs")
+	}
 	w.conn.out = nil
 	dbody := vCat([]byte{'S'}, vCStr(nil))
 	vAssert("describe-ok", w.ses.handleDescribe(w.ctx, &buffer.Reader{Msg: dbody, MaxMessageSize: 64}, w.wr) == nil)
